@@ -261,7 +261,7 @@ class Opaque:
         return Opaque(self.tag, **d)
 
     def __repr__(self):
-        return '<%s %s>' % (self.tag, ' '.join('%s=%r' % kv for kv in self.data.items()))
+        return '<%s %s>' % (self.tag, ' '.join('%s=%s' % (k, repr(v)[:200]) for k, v in self.data.items() if k not in ('node', 'scopes', 'module', 'self_ty')))
 
 
 class Closure:
